@@ -28,8 +28,8 @@ theorem sound_core : Gen.KG3.sem.soundCoreB = true := by decide +kernel
 
 /-- C01 for this logic: a closed tableau reached by any legal derivation has no countermodel. -/
 theorem c01_valid_sound (arg : Argument) (t : Tableau)
-    (hd : Deriv Gen.KG3.sem.soundPart.noQuantPart (trunk Gen.KG3.sem arg) t) (hclosed : t.allClosed = true)
+    (hd : Deriv Gen.KG3.sem.soundPart (trunk Gen.KG3.sem arg) t) (hclosed : t.allClosed = true)
     (M : Struct) (hM : M.Interp Gen.KG3.sem) (e : Env M.D) (w0 : M.W) : ¬ Countermodel Gen.KG3.sem M e w0 arg :=
-  Props.C01.C01_valid_sound_partial Gen.KG3.sem sound_core arg t hd hclosed M hM e w0
+  Props.C01.C01_valid_sound Gen.KG3.sem sound_core arg t hd hclosed M hM e w0
 
 end Ptx.Gen.Obl.KG3
